@@ -116,8 +116,10 @@ C(f"{F}:Parser.extract_import_level", params={**P, "tokens": "seq[Tok]"}, return
                      "implies(all(tokens[j].string != '.' for j in range(_i)), level == 3 * _i)"]}},
   raises=[], pure=True, properties=["C01"])
 
-C(f"{F}:Parser.is_adjacent", params={"prev": "Tok", "curr": "Tok"}, returns="bool",
-  ensures=["result == (prev.end == curr.start)"], raises=[], pure=True, properties=["C05", "C06"])
+# C06: adjacency is purely positional, for tokens and for pieces built by grammar actions alike: where the previous piece ENDS
+# (line and column) is where the current one STARTS
+C(f"{F}:Parser.is_adjacent", params={"prev": "union[Tok|obj:PosNode]", "curr": "union[Tok|obj:PosNode]"}, returns="bool",
+  ensures=["result == (node_end(prev) == node_start(curr))"], raises=[], pure=True, properties=["C04", "C05", "C06"])
 
 # ---------------------------------------------------------------------------------------------- wrappers (C15, C17, C18)
 WCL = {"method": "rulefn", "method_name": "str"}
